@@ -27,9 +27,14 @@ mod ser_oracle;
 mod ser_ws;
 mod suite_ser;
 mod suite_fws;
+mod scope_dedup_class;
 mod scope_oracle;
 mod suite_scope;
 mod suite_tree;
+mod html_gen;
+mod html_oracle;
+mod html_tok;
+mod suite_html;
 mod tree;
 
 use common::Sink;
@@ -60,6 +65,7 @@ fn main() {
         "fws" => suite_fws::run(seed, count, tier, &mut sink),
         "scope" => suite_scope::run(seed, count, tier, &mut sink),
         "ffixed" => suite_ffixed::run(seed, count, tier, &mut sink),
+        "html" => suite_html::run(seed, count, tier, &mut sink),
         "fmap" => suite_fmap::run(seed, count, tier, &mut sink),
         "build" => suite_build::run(seed, count, tier, &mut sink),
         "fclone" => suite_fclone::run(seed, count, tier, &mut sink),
